@@ -7,14 +7,19 @@ use crate::gen::sem::{self, Opts, Program};
 use crate::ws::Workspace;
 
 pub fn sem_case(rng: &mut Rng, probes: bool) -> Case {
-    json!({"kind": "sem", "seed": rng.next() >> 16, "n": 3 + rng.below(9), "opts": if probes { "probes" } else { "clean" }})
+    let mut c = json!({"kind": "sem", "seed": rng.next() >> 16, "n": 3 + rng.below(9), "opts": if probes { "probes" } else { "clean" }});
+    if rng.chance(1, 4) {
+        c["crlf"] = json!(true);
+    }
+    c
 }
 
 pub fn program_of(case: &Case) -> Option<Program> {
     let seed = case.get("seed")?.as_u64()?;
     let n = case.get("n")?.as_u64()? as usize;
     let opts = if case.get("opts")?.as_str()? == "probes" { Opts::WithProbes } else { Opts::Clean };
-    Some(sem::program_from(seed, n.min(40), opts))
+    let p = sem::program_from(seed, n.min(40), opts);
+    Some(if case.get("crlf").and_then(|x| x.as_bool()) == Some(true) { p.to_crlf() } else { p })
 }
 
 pub fn workspace_of(p: &Program) -> Workspace {
